@@ -290,11 +290,11 @@ def finish(ctx: Ctx) -> int:
     print(f'[{ctx.prop} {ctx.tier} seed={ctx.seed}] evaluations={ctx.evaluations} distinct_nontrivial={distinct} '
           f'wall={evidence["wall_s"]}s')
     print(f'  counters: {top}')
+    for r in ctx.inconclusive[:10]:
+        print(f'INCONCLUSIVE property={ctx.prop} reason={r[-1500:]}')
     if violations:
         return 1
     if ctx.inconclusive:
-        for r in ctx.inconclusive[:10]:
-            print(f'INCONCLUSIVE property={ctx.prop} reason={r[:600]}')
         return 2
     if ctx.evaluations == 0 or distinct < 2:
         print(f'INCONCLUSIVE property={ctx.prop} reason=nothing observed')
